@@ -22,6 +22,16 @@ impl E57Tag for Node<'_, '_> {
     }
 }
 
+/// Namespace prefix an element is written with, if any.
+/// Several prefixes can be bound to the same namespace and any element in between can add one,
+/// so a lookup by namespace does not necessarily return the prefix that was used.
+pub fn written_prefix<'a>(node: &Node<'_, 'a>) -> Option<&'a str> {
+    let text = node.document().input_text();
+    let tag = text.get(node.range().start..)?.strip_prefix('<')?;
+    let end = tag.find(|c: char| c.is_whitespace() || c == '>' || c == '/')?;
+    tag[..end].split_once(':').map(|(prefix, _)| prefix)
+}
+
 /// Character data of an element: the concatenation of all its text and CDATA parts.
 /// Comments, processing instructions and child elements between them do not belong to the value.
 pub fn element_text(node: &Node) -> String {
